@@ -2,12 +2,326 @@
 C01 (hand-written code) — termination, iteration bounds, in-range indices / slices and absence of arithmetic
 traps for the models of Model/HandVar.lean ⇄ read-fonts/src/tables/variations.rs / gvar.rs / cvar.rs / hvar.rs / vvar.rs / mvar.rs / avar.rs (tuple variation headers, shared / private point numbers, phantom deltas, DeltaSetIndexMap, ItemVariationStore deltas).
 Tied to the real functions by harness group `vars.model` (`hv.*` driver commands).
+
+Standing hypotheses: `ac ≤ 65535` (`axis_count` is a `u16`) and, where values are claimed to be `i16`s,
+`Bytes d` (the list holds bytes).  `none` / `.trap` results of the model are panics of the strict profile.
 -/
-import FontVerif.Model.HandVar
-import FontVerif.Lemmas.ReadIter
+import FontVerif.Lemmas.HandVar
 set_option linter.unusedVariables false
 set_option linter.unusedSimpArgs false
 namespace FontVerif.C01HandVar
 open FontVerif FontVerif.ReadIter FontVerif.HandRead FontVerif.HandVar
+
+/-! ## `TupleVariationHeader` -/
+
+/-- **the `unwrap`s of a successfully read tuple variation header never fire**: if
+`TupleVariationHeader::read(data, axis_count)` is `Ok`, then `variation_data_size()`, `tuple_index()`,
+`peak_tuple()`, `intermediate_start_tuple()`, `intermediate_end_tuple()`, `intermediate_tuples()` and
+`byte_len()` do not panic (no failing `read_array(range).unwrap()`, no overflow in the unchecked range
+and length sums), every embedded tuple has exactly `axis_count` values, and `byte_len()` — the sum of the
+flag-dependent tuple lengths behind the 4 fixed bytes — does not exceed the data the header was read
+from (so every tuple slice lies inside it). -/
+theorem header_getters_safe (d : List Nat) (ac : Nat) (h : Hdr) (hac : ac ≤ 65535)
+    (hr : tvhRead d ac = some h) :
+    h.size.isSome ∧ h.ti.isSome ∧ h.peakTuple ≠ .trap ∧ h.interStartTuple ≠ .trap ∧
+    h.interEndTuple ≠ .trap ∧ h.interTuples ≠ .trap ∧
+    (∀ v, h.peakTuple = .some v ∨ h.interStartTuple = .some v ∨ h.interEndTuple = .some v → v.length = ac) ∧
+    (∃ n, h.byteLen ac = some n ∧ 4 ≤ n ∧ n ≤ d.length ∧ n = 4 + h.peakLen + h.isLen + h.ieLen) := by
+  obtain ⟨ti, hTi, ⟨sz, hsz⟩, hd, hpl, hil, hel, hpk, his, hie, hit, hbl, hlen⟩ := hdr_getters hac hr
+  refine ⟨by simp [hsz], by simp [hTi], ?_, ?_, ?_, ?_, ?_, ⟨_, hbl, by omega, hlen, rfl⟩⟩
+  · rw [hpk]; split <;> simp
+  · rw [his]; split <;> simp
+  · rw [hie]; split <;> simp
+  · rw [hit]; split <;> simp
+  · intro v hv
+    rw [hpk, his, hie] at hv
+    rcases hv with hv | hv | hv <;> split at hv <;> first | (injection hv with hv; subst hv; exact tupleVals_length _ _ _) | cases hv
+
+/-- the header read fails exactly when the flag-dependent length does not fit: `Ok` iff
+`4 + (embedded ? 2·axes : 0) + (intermediate ? 4·axes : 0) ≤ data.len()` -/
+theorem header_read_iff (d : List Nat) (ac : Nat) (hac : ac ≤ 65535) :
+    (tvhRead d ac).isSome ↔
+      ∃ ti, readAt d 2 2 = some ti ∧
+        4 + (if tiEmbedded ti then 2 * ac else 0) + (if tiInter ti then 4 * ac else 0) ≤ d.length := by
+  constructor
+  · intro h
+    obtain ⟨hd, hh⟩ := Option.isSome_iff_exists.mp h
+    obtain ⟨ti, hti, _, hpk, his, hie, hlen⟩ := tvhRead_some hac hh
+    refine ⟨ti, hti, ?_⟩
+    rw [hie, hpk, his] at hlen
+    split at hlen <;> split at hlen <;> simp_all <;> omega
+  · intro ⟨ti, hti, hlen⟩
+    unfold tvhRead
+    rw [hti]
+    simp only []
+    have h0 := tupleLen_le ti ac 0
+    have h1 := tupleLen_le ti ac 1
+    have e0 : checkedMul (tupleLen ti ac 0) 2 = some (tupleLen ti ac 0 * 2) := by
+      unfold checkedMul MAXU; rw [if_pos (by omega)]
+    have e1 : checkedMul (tupleLen ti ac 1) 2 = some (tupleLen ti ac 1 * 2) := by
+      unfold checkedMul MAXU; rw [if_pos (by omega)]
+    rw [e0, e1]
+    simp only []
+    rw [satAdd_exact 4 _ (by unfold MAXU; omega)]
+    rw [satAdd_exact (4 + tupleLen ti ac 0 * 2) _ (by unfold MAXU; omega)]
+    rw [satAdd_exact _ _ (by unfold MAXU; omega)]
+    rw [tupleLen0, tupleLen1]
+    rw [if_pos (by split at hlen <;> split at hlen <;> simp_all <;> omega)]
+    simp
+
+/-! ## `TupleVariationHeaderIter` -/
+
+/-- number of `Ok` headers in a trace -/
+def okHeaders (evs : List (Out (Option Hdr))) : Nat := ((items evs).filter (·.isSome)).length
+
+/-- **`TupleVariationHeaderIter` yields exactly `n_headers` items and never panics**: for every data,
+every count `n ≤ 4095` (`tupleVariationCount & 0x0FFF`) and axis count, the iterator makes exactly `n`
+trips (`current` counts up to `n_headers`; the `?` behind `data.split_off(next_len)` never fires, because
+`byte_len` of an `Ok` header was validated by the read and is 0 for an `Err`), and the `Ok` headers
+together consume at most the data: `4 · #Ok ≤ data.len()`. -/
+theorem header_iter_exact (d : List Nat) (n ac : Nat) (hn : n ≤ 4095) (hac : ac ≤ 65535) :
+    ∃ evs, tvhTrace d n ac = some evs ∧ evs.length = n ∧ (items evs).length = n ∧
+      trapped evs = false ∧ 4 * okHeaders evs ≤ d.length := by
+  let Inv : HSt → Prop := fun s => s.current ≤ n
+  have hInv : ∀ s, Inv s → Inv (tvhNext n ac s).2 := fun s hi => (tvhNext_facts n ac hac hn s hi).1
+  obtain ⟨evs, he, hl⟩ := run_exact (tvhNext n ac) (fun s => n - s.current) Inv hInv
+    (fun s hi => by
+      have := (tvhNext_facts n ac hac hn s hi).2.2.2.1
+      constructor
+      · intro h; have := this.mp h; omega
+      · intro h; exact this.mpr (by show s.current = n; have : s.current ≤ n := hi; omega))
+    (fun s hi hnd => by
+      have h1 := (tvhNext_facts n ac hac hn s hi).2.2.2.2.1 hnd
+      have h2 := (tvhNext_facts n ac hac hn s hi).2.2.2.1
+      have : s.current ≠ n := fun h => hnd (h2.mpr h)
+      have : s.current ≤ n := hi
+      omega)
+    (fun s hi => (tvhNext_facts n ac hac hn s hi).2.1)
+    (n + 1) ⟨d, 0⟩ (Nat.zero_le _) (by simp)
+  have hnt := not_trapped (tvhNext n ac) Inv hInv (fun s hi => (tvhNext_facts n ac hac hn s hi).2.1)
+    _ _ _ (Nat.zero_le _ : Inv ⟨d, 0⟩) he
+  have hw := weight_le (tvhNext n ac) (fun s => s.data.length) (fun o => if o.isSome then 4 else 0) Inv hInv
+    (fun s a hi hy => by
+      have hf := tvhNext_facts n ac hac hn s hi
+      cases a with
+      | none => simp; exact hf.2.2.2.2.2.1
+      | some h => simp; exact (hf.2.2.2.2.2.2 h hy).2)
+    (fun s hi hc => absurd hc (tvhNext_facts n ac hac hn s hi).2.2.1)
+    _ _ _ (Nat.zero_le _ : Inv ⟨d, 0⟩) he
+  have hnc : ∀ (f : Nat) (s : HSt) (evs : List (Out (Option Hdr))), Inv s → run (tvhNext n ac) f s = some evs →
+      (items evs).length = evs.length := by
+    intro f
+    induction f with
+    | zero => intro s evs _ h; simp [run] at h
+    | succ f ih =>
+      intro s evs hi h
+      have hI := hInv s hi
+      have hC := (tvhNext_facts n ac hac hn s hi).2.2.1
+      unfold run at h
+      split at h
+      · simp at h; subst h; simp [items]
+      · simp at h; subst h
+        rename_i s' hs
+        exact absurd (by rw [hs]) (tvhNext_facts n ac hac hn s hi).2.1
+      · rename_i s' hs; exact absurd (by rw [hs]) hC
+      · rename_i a s' hs
+        cases hr : run (tvhNext n ac) f s' with
+        | none => simp [hr] at h
+        | some r =>
+          simp [hr] at h; subst h
+          rw [hs] at hI
+          simp [items, ih s' r hI hr]
+  refine ⟨evs, he, by simpa using hl, ?_, hnt, ?_⟩
+  · rw [hnc _ _ _ (Nat.zero_le _ : Inv ⟨d, 0⟩) he]; simpa using hl
+  · have : weight (fun o : Option Hdr => if o.isSome then 4 else 0) evs = 4 * okHeaders evs := by
+      unfold weight okHeaders
+      generalize items evs = l
+      induction l with
+      | nil => simp
+      | cons a r ih =>
+        cases a <;> simp [List.filter, ih] <;> omega
+    rw [this] at hw
+    simpa using hw
+
+/-! ## `TupleVariationIter` -/
+
+/-- **`TupleVariationData::tuples()` terminates within the count and the data length, never panics,
+and hands out only slices of the serialized data**: for every `TupleVariationData` (any header bytes,
+any serialized bytes, any count bits) the iterator makes at most `count & 0x0FFF ≤ 4095` trips; every
+yielded tuple has a header that was read successfully (so its unwrapping getters are safe), consumes at
+least 4 header bytes — at most `header_data.len() / 4` tuples — and the tuples' `variation_data_size`
+slices are consecutive pieces of the serialized data: their lengths add up to at most
+`serialized_data.len()` (`take_up_to` refuses a size beyond the rest). -/
+theorem tuples_iter_bounded (p : TVD) (hac : p.ac ≤ 65535) :
+    ∃ evs, tvTrace p = some evs ∧ evs.length ≤ tvcCount p.countBits ∧ tvcCount p.countBits ≤ 4095 ∧
+      trapped evs = false ∧ 4 * (items evs).length ≤ p.headerData.length ∧
+      ((items evs).map (fun t => t.varData.length)).sum ≤ p.ser.length ∧
+      ∀ t ∈ items evs, ∃ d', tvhRead d' p.ac = some t.hdr ∧ d'.length ≤ p.headerData.length := by
+  have h0 : TInv p p.tuplesInit := by simp [TInv, TVD.tuplesInit]
+  have hInv : ∀ s, TInv p s → TInv p (tvNext p s).2 := fun s hi => (tvNext_facts p hac s hi).1
+  obtain ⟨evs, he, hl⟩ := run_complete (tvNext p) (fun s => tvcCount p.countBits - s.current) (TInv p) hInv
+    (fun s hi hnd => by have := (tvNext_facts p hac s hi).2.2.1 hnd; omega)
+    (tvcCount p.countBits + 1) p.tuplesInit h0 (by simp [TVD.tuplesInit])
+  have hnt := not_trapped (tvNext p) (TInv p) hInv (fun s hi => (tvNext_facts p hac s hi).2.1) _ _ _ h0 he
+  have hw1 := weight_le (tvNext p) (fun s => s.h.data.length) (fun _ => 4) (TInv p) hInv
+    (fun s a hi hy => ((tvNext_facts p hac s hi).2.2.2.2.2 a hy).2.1)
+    (fun s hi _ => (tvNext_facts p hac s hi).2.2.2.1) _ _ _ h0 he
+  have hw2 := weight_le (tvNext p) (fun s => s.ser.length) (fun t => t.varData.length) (TInv p) hInv
+    (fun s a hi hy => by have := ((tvNext_facts p hac s hi).2.2.2.2.2 a hy).2.2; omega)
+    (fun s hi _ => (tvNext_facts p hac s hi).2.2.2.2.1) _ _ _ h0 he
+  have hall := items_all (tvNext p) (fun s => TInv p s ∧ s.h.data.length ≤ p.headerData.length)
+    (fun t => ∃ d', tvhRead d' p.ac = some t.hdr ∧ d'.length ≤ p.headerData.length)
+    (fun s hi => ⟨hInv s hi.1, by have := (tvNext_facts p hac s hi.1).2.2.2.1; omega⟩)
+    (fun s a hi hy => by
+      obtain ⟨d', h1, h2⟩ := ((tvNext_facts p hac s hi.1).2.2.2.2.2 a hy).1
+      exact ⟨d', h1, by omega⟩)
+    _ _ _ ⟨h0, by simp [TVD.tuplesInit]⟩ he
+  refine ⟨evs, he, by simpa [TVD.tuplesInit] using hl, tvcCount_le _, hnt, ?_, ?_, hall⟩
+  · have : weight (fun _ : TV => 4) evs = 4 * (items evs).length := by
+      unfold weight
+      generalize items evs = l
+      induction l with
+      | nil => simp
+      | cons a r ih => simp [ih]; omega
+    rw [this] at hw1
+    simpa [TVD.tuplesInit] using hw1
+  · simpa [weight, TVD.tuplesInit] using hw2
+
+/-! ## `TupleVariation` -/
+
+/-- **the accessors of a yielded tuple never panic and index inside the data**: for a tuple whose
+header was read successfully, `peak()` (shared tuple by `tuple_records_index`, else the embedded one,
+else the empty default), `point_numbers_and_packed_deltas()`, `has_deltas_for_all_points()` and
+`compute_scalar_f32()` return; the peak has `axis_count` values or none at all, a shared peak lies
+inside the shared tuple data (`idx · 2·axes + 2·axes ≤ len`), the packed deltas are a suffix of the
+tuple's own `variation_data_size` slice, and all tuple values are `i16`s. -/
+theorem tuple_accessors_safe (p : TVD) (t : TV) (d' : List Nat) (hac : p.ac ≤ 65535)
+    (hr : tvhRead d' p.ac = some t.hdr) (coords : List Int) :
+    (∃ v, t.peak p = some v ∧ (v.length = p.ac ∨ v = []) ∧
+      (Bytes d' → (∀ sd, p.shared = some sd → Bytes sd) → ∀ x ∈ v, I16 x)) ∧
+    (∃ pd dd, t.pointsAndDeltas p = some (pd, dd) ∧ dd.length ≤ t.varData.length) ∧
+    (t.hasDeltasForAllPoints p).isSome ∧
+    (∃ b, t.computeScalarF32 p coords = .ok b) := by
+  obtain ⟨pd, dd, h1, h2, _⟩ := pointsAndDeltas_some p t d' hac hr
+  obtain ⟨b, hb⟩ := hasAll_some p t d' hac hr
+  exact ⟨peak_facts p t d' hac hr, ⟨pd, dd, h1, h2⟩, by simp [hb], f32_no_trap p t d' hac hr coords⟩
+
+/-- a shared peak tuple is read inside the shared tuple array: `ComputedArray::get(idx)` answers only
+when item `idx` of `2 · axis_count` bytes fits -/
+theorem shared_peak_in_bounds (sd : List Nat) (ac idx : Nat) (v : List Int)
+    (h : sharedTupleGet sd ac idx = some v) : v.length = ac ∧ idx * (2 * ac) + 2 * ac ≤ sd.length := by
+  obtain ⟨h1, _, off, h2, h3⟩ := sharedTupleGet_facts sd ac idx v h
+  exact ⟨h1, by omega⟩
+
+/-- **`compute_scalar` panics only if the C20 kernel traps**: the loop over the peak values is handed
+`axis_count` `i16` peaks, `i16` intermediate tuples of the same length, and the caller's coordinates —
+the hypothesis `hk` is exactly C20's theorem `tupleScalar_no_trap` (Props/C20.lean), which is not
+imported here to keep the two checks independent; with it, `compute_scalar` returns `Some` / `None`
+for every tuple and coordinates.
+(`…_partial`: the full statement is the one without `hk`; C20 proves `hk`.) -/
+theorem computeScalar_no_panic_partial (p : TVD) (t : TV) (d' : List Nat) (hac : p.ac ≤ 65535)
+    (hr : tvhRead d' p.ac = some t.hdr) (hb : Bytes d') (hs : ∀ sd, p.shared = some sd → Bytes sd)
+    (coords : List Int)
+    (hk : ∀ (pk : List Int) (inter : Option (List Int × List Int)), (∀ c ∈ pk, I16 c) →
+      (∀ q, inter = some q → (∀ c ∈ q.1, I16 c) ∧ (∀ c ∈ q.2, I16 c)) →
+      (Checked.tupleScalar pk inter coords).isSome) :
+    ∃ r, t.computeScalar p coords = .ok r :=
+  computeScalar_facts p t d' hac hr hb hs coords hk
+
+/-- the `for i in 0..axis_count` loop of `compute_scalar_f32` is structurally bounded by the axis count -/
+theorem f32Loop_total (inter : Option (List Int × List Int)) (coords pk : List Int) (ac : Nat) :
+    ∃ b, f32Loop inter coords pk (List.range ac) = b := ⟨_, rfl⟩
+
+/-- **`TupleVariation::deltas()` terminates without panicking for private and shared point numbers**:
+for every tuple with a successfully read header (gvar: `is_point`, cvar: scalars) the set-up
+(`total_len`, `count_all_deltas`, `skip_fast`) completes and the `TupleDeltaIter` loop makes at most
+`128 · len + 131204` trips, `len` = length of the tuple's `variation_data_size` slice. -/
+theorem tuple_deltas_bounded (p : TVD) (t : TV) (d' : List Nat) (hac : p.ac ≤ 65535)
+    (hr : tvhRead d' p.ac = some t.hdr) (isPoint : Bool) :
+    ∃ evs, t.deltasTrace p isPoint = some evs ∧ evs.length ≤ 128 * t.varData.length + 131204 ∧
+      trapped evs = false := by
+  obtain ⟨pd, dd, h1, h2, _⟩ := pointsAndDeltas_some p t d' hac hr
+  obtain ⟨s, evs, hi, he, hl, ht⟩ := deltas_run pd dd isPoint
+  refine ⟨evs, ?_, by omega, ht⟩
+  unfold TV.deltasTrace
+  rw [h1]
+  simp only []
+  rw [hi]
+  exact he
+
+/-! ## `GlyphVariationData::new`, `Cvar::variation_data` -/
+
+/-- **`GlyphVariationData::new` never panics** (`raw_tuple_header_data`'s `split_off(4).unwrap()` and the
+unwrapping getters are guarded by the generated reader's length check), it fails only with
+`OutOfBounds` / `NullOffset`, and what it hands to the iterators lies inside the glyph's data: the
+header data is `data[4..]`, the serialized data and the shared point numbers are suffixes of `data`. -/
+theorem gvdNew_safe (d : List Nat) (ac : Nat) (shared : List Nat) :
+    gvdNew d ac shared ≠ .trap ∧
+    (∀ e, gvdNew d ac shared = .err e → e = .oob ∨ e = .nullOffset) ∧
+    ∀ p, gvdNew d ac shared = .ok p →
+      p.ac = ac ∧ p.headerData = d.drop 4 ∧ 4 ≤ d.length ∧ p.ser.length ≤ d.length ∧
+      (∀ sp, p.sharedPts = some sp → ∃ off, sp = d.drop off) := by
+  obtain ⟨h1, he, h2⟩ := gvdNew_facts d ac shared
+  exact ⟨h1, he, fun p hp => by obtain ⟨a, _, b, c, e, f, _⟩ := h2 p hp; exact ⟨a, b, c, e, f⟩⟩
+
+/-- **`Cvar::variation_data` never panics** (generated `Cvar::read` included): errors are `OutOfBounds`
+/ `NullOffset`; header data = `table[8..]`, serialized data and shared points are suffixes of the table -/
+theorem cvar_variation_data_safe (d : List Nat) (ac : Nat) :
+    cvarVariationData d ac ≠ .trap ∧
+    (∀ e, cvarVariationData d ac = .err e → e = .oob ∨ e = .nullOffset) ∧
+    ∀ p, cvarVariationData d ac = .ok p →
+      p.ac = ac ∧ p.shared = none ∧ p.headerData = d.drop 8 ∧ 8 ≤ d.length ∧ p.ser.length ≤ d.length ∧
+      (∀ sp, p.sharedPts = some sp → ∃ off, sp = d.drop off) := by
+  obtain ⟨h1, he, h2⟩ := cvarVariationData_facts d ac
+  exact ⟨h1, he, fun p hp => by obtain ⟨a, a', b, c, e, f, _⟩ := h2 p hp; exact ⟨a, a', b, c, e, f⟩⟩
+
+/-- **the whole cvar walk is safe**: for every table and axis count, `Cvar::read` +
+`variation_data(axis_count)` + `tuples()` either fail with a `ReadError` or yield at most
+`min(count & 0x0FFF, (len − 8) / 4)` tuples, each with a successfully read header (all accessors safe,
+`deltas()` bounded), without a panic. -/
+theorem cvar_walk_safe (d : List Nat) (ac : Nat) (hac : ac ≤ 65535) (p : TVD)
+    (hp : cvarVariationData d ac = .ok p) :
+    ∃ evs, tvTrace p = some evs ∧ trapped evs = false ∧ evs.length ≤ 4095 ∧
+      4 * (items evs).length + 8 ≤ d.length ∧
+      ∀ t ∈ items evs, (∃ d', tvhRead d' ac = some t.hdr) ∧ t.varData.length ≤ d.length ∧
+        ∃ dv, t.deltasTrace p false = some dv ∧ dv.length ≤ 128 * d.length + 131204 ∧ trapped dv = false := by
+  obtain ⟨_, _, hok⟩ := cvarVariationData_facts d ac
+  obtain ⟨hpa, _, hhd, h8, hser, _, _⟩ := hok p hp
+  have hac' : p.ac ≤ 65535 := by omega
+  obtain ⟨evs, he, hl, hc, ht, h4, hsum, hall⟩ := tuples_iter_bounded p hac'
+  refine ⟨evs, he, ht, by omega, ?_, ?_⟩
+  · rw [hhd] at h4; simp only [List.length_drop] at h4; omega
+  · intro t htm
+    obtain ⟨d', hr, _⟩ := hall t htm
+    have hvl : t.varData.length ≤ p.ser.length := by
+      have := mem_le_sum ((items evs).map (fun t => t.varData.length)) t.varData.length
+        (List.mem_map.mpr ⟨t, htm, rfl⟩)
+      omega
+    obtain ⟨dv, h1, h2, h3⟩ := tuple_deltas_bounded p t d' hac' hr false
+    exact ⟨⟨d', hpa ▸ hr⟩, by omega, dv, h1, by omega, h3⟩
+
+/-! ## non-vacuity -/
+
+/-- an embedded peak + intermediate header for one axis: 4 + 2 + 4 bytes -/
+example : (tvhRead [0, 3, 0xC0, 0, 0x40, 0, 0x20, 0, 0x40, 0] 1).map (fun h => (h.peakTuple, h.interTuples, h.byteLen 1)) =
+    some (.some [16384], .some [8192] [16384], some 10) := by decide +kernel
+
+/-- the same header one byte short: `Err(OutOfBounds)` -/
+example : tvhRead [0, 3, 0xC0, 0, 0x40, 0, 0x20, 0, 0x40] 1 = none := by decide +kernel
+
+/-- three headers announced, the data holds two: `Ok, Ok, Err` (the iterator does not stop early) -/
+example : (tvhTrace [0, 1, 0x80, 0, 0x40, 0, 0, 2, 0x80, 0, 0xC0, 0, 9] 3 1).map (fun evs => (items evs).map (·.isSome)) =
+    some [true, true, false] := by decide +kernel
+
+/-- a cvar table with one tuple (embedded peak, private points "all", two byte deltas) -/
+def exCvar : List Nat := [0, 1, 0, 0, 0, 1, 0, 14, 0, 4, 0xA0, 0, 0x40, 0, 0, 1, 5, 6]
+
+def exCvarWalk : Option (List (List Int × List (Nat × Int × Int))) :=
+  match cvarVariationData exCvar 1 with
+  | .ok p => (tvTrace p).map (fun evs => (items evs).map (fun t =>
+      ((t.peak p).getD [], ((t.deltasTrace p false).map items).getD [])))
+  | _ => none
+
+example : exCvarWalk = some [([16384], [(0, 5, 0), (1, 6, 0)])] := by decide +kernel
 
 end FontVerif.C01HandVar
